@@ -421,6 +421,13 @@ def _m_sig(f, case):
     return case.get("sig") == f["sig"]
 
 
+@matcher("cls_only")
+def _m_cls_only(f, case):
+    """finding: {"cls": [...]}: the case's attribution classes are non-empty and all listed."""
+    c = case.get("cls")
+    return bool(c) and all(x in f["cls"] for x in c)
+
+
 def rng(seed, salt=""):
     import random
     return random.Random("%s/%s" % (seed, salt))
